@@ -1,15 +1,670 @@
-//! Extension `quote` of the Yata executor (see ext/mod.rs for the contract).
-use crate::yata::World;
-use serde_json::Value;
+//! Extension `quote` of the Yata executor (C20: quotations and links; see ext/mod.rs for the contract).
+//!
+//! Steps (all of them are executed through the public API of yrs only):
+//!   quote   {"a":"quote","r":R,"p":[path of a text/array],"key":"q1","h":"q1", range}      local op, one update slot
+//!           ("psel":N instead of "p": the N-th (mod count) non-empty sequence reachable on R)
+//!           range = explicit {"i","j","si","ei","su","eu"} (visible unit indexes, inclusive flags, unbounded flags)
+//!                   or {"sel":N}: the N-th (mod count) entry of the canonical list of ranges over the CURRENT visible
+//!                   length of the source on replica R (`ranges`), so that a generator that does not know the length
+//!                   can still enumerate every range; the event records the resolved values.
+//!   link    {"a":"link","r":R,"key":<key of root map m>,"at":"l1","h":"l1"}                 local op, one update slot
+//!   qdel    {"a":"qdel","r":R,"h":H}        removes the map entry holding the quotation     local op, one update slot
+//!   qedit   {"a":"qedit","r":R,"h":H,"op":"ins"|"del"|"set"|"rem","at":"lo-"|"lo"|"lo+"|"mid"|"hi-"|"hi"|"hi+"|"out-"|"out+","n":1}
+//!           an ordinary insert/delete in the SOURCE of H at a position resolved relative to H's boundaries on replica R;
+//!           executed by `World::local` (event kind "loc", validated by the base trace action)    local op, one slot
+//!   unquote {"a":"unquote"[,"r":R][,"h":H]} dereferences the handle(s) on the replica(s) (default: all x all)
+//! A local-op step that cannot be executed (source empty, quotation not on that replica ...) still occupies its
+//! update slot (empty update) so that the slot numbers used by `dlv` steps of a schedule stay valid.
+//!
+//! Observers: whenever a stored quotation is reachable on a replica and has no observer yet, `after_step`
+//! subscribes `observe` on that WeakRef; firings are counted per (replica, handle) and reported (and reset) by the
+//! next `unquote` result for that pair (`fired`, with `o` = an observer is installed).
+use crate::codec::{self, Content, Id, Scope};
+use crate::obs::{self, RootKind};
+use crate::yata::{panic_msg, World};
+use serde_json::{json, Value};
+use std::cell::Cell;
+use std::collections::{BTreeMap, HashMap};
+use std::ops::Bound;
+use std::panic::{catch_unwind, AssertUnwindSafe};
+use std::rc::Rc;
+use yrs::{Array, ArrayRef, GetString, Map, MapRef, Observable, Out, Quotable, ReadTxn, TextRef, Transact, WeakRef};
 
-pub fn init(_w: &mut World) {}
+#[derive(Clone)]
+struct Handle {
+    kind: char, // 't' text quotation, 'a' array quotation, 'l' map link
+    key: String, // key of root map m under which the quotation is stored
+    src: String, // container key of the source
+    lo: Id,      // (0,0) = unbounded
+    hi: Id,
+}
 
-pub fn step(_w: &mut World, _st: &Value) -> Option<Value> {
+#[derive(Default)]
+struct QState {
+    handles: BTreeMap<String, Handle>,
+    subs: HashMap<(usize, String), (yrs::Subscription, Rc<Cell<u32>>)>,
+}
+
+fn take(w: &mut World) -> Box<QState> {
+    match w.ext.remove("quote") {
+        Some(b) => b.downcast::<QState>().unwrap_or_else(|_| Box::new(QState::default())),
+        None => Box::new(QState::default()),
+    }
+}
+fn put(w: &mut World, s: Box<QState>) {
+    w.ext.insert("quote".into(), s);
+}
+
+pub fn init(w: &mut World) {
+    put(w, Box::new(QState::default()));
+}
+
+// -------------------------------------------------------------------------------------------------
+// helpers
+
+fn nav<T: ReadTxn>(w: &World, txn: &T, path: &[String]) -> Result<Out, String> {
+    let root = &path[0];
+    let kind = w.roots.iter().find(|r| &r.0 == root).map(|r| r.1).ok_or("unknown root")?;
+    let mut cur: Out = match kind {
+        RootKind::Text => Out::YText(txn.get_text(root.as_str()).ok_or("no text root")?),
+        RootKind::Array => Out::YArray(txn.get_array(root.as_str()).ok_or("no array root")?),
+        RootKind::Map => Out::YMap(txn.get_map(root.as_str()).ok_or("no map root")?),
+    };
+    for seg in &path[1..] {
+        cur = if let Some(i) = seg.strip_prefix('#') {
+            let i: u32 = i.parse().map_err(|_| "bad index")?;
+            match &cur {
+                Out::YArray(a) => a.get(txn, i).ok_or(format!("no element {}", i))?,
+                _ => return Err("index into non-array".into()),
+            }
+        } else {
+            match &cur {
+                Out::YMap(m) => m.get(txn, seg).ok_or(format!("no key {}", seg))?,
+                _ => return Err("key into non-map".into()),
+            }
+        };
+    }
+    Ok(cur)
+}
+
+fn branch_id(out: &Out) -> Id {
+    match out.try_branch().map(|b| b.id()) {
+        Some(yrs::BranchID::Nested(id)) => (id.client.get(), id.clock),
+        _ => (0, 0),
+    }
+}
+
+fn out_id(w: &World, out: &Out) -> Id {
+    match out {
+        Out::Any(a) => w.tags.of_any(a),
+        other => branch_id(other),
+    }
+}
+
+/// sequence containers (text / array) reachable on replica `ri`: (path, kind, container key, visible length in units)
+fn seq_containers(w: &World, ri: usize) -> Vec<(Vec<String>, char, String, u32)> {
+    let txn = w.reps[ri].doc.transact();
+    let mut out = Vec::new();
+    if let Some(t) = txn.get_text("t") {
+        let n = t.get_string(&txn).chars().count() as u32;
+        out.push((vec!["t".to_string()], 't', "t|".to_string(), n));
+    }
+    if let Some(a) = txn.get_array("a") {
+        out.push((vec!["a".to_string()], 'a', "a|".to_string(), a.len(&txn)));
+        for (i, v) in a.iter(&txn).enumerate() {
+            if let Out::YArray(x) = &v {
+                let p = vec!["a".to_string(), format!("#{}", i)];
+                out.push((p.clone(), 'a', World::cont_of(&v, &p, ""), x.len(&txn)));
+            }
+        }
+    }
+    if let Some(m) = txn.get_map("m") {
+        let mut ks: Vec<(String, Out)> = m.iter(&txn).map(|(k, v)| (k.to_string(), v)).collect();
+        ks.sort_by(|a, b| a.0.cmp(&b.0));
+        for (k, v) in ks {
+            if let Out::YArray(x) = &v {
+                let p = vec!["m".to_string(), k.clone()];
+                out.push((p.clone(), 'a', World::cont_of(&v, &p, ""), x.len(&txn)));
+            }
+        }
+    }
+    out
+}
+
+/// canonical list of the well-formed ranges over a sequence of n >= 1 visible units:
+/// (su, i, si, eu, j, ei). A bounded start (end) names the unit at visible index i (j), included iff si (ei).
+/// Ranges whose start lies behind their end ((i..i], (i..i)) are ill-formed and not listed; the empty half-open
+/// range [i..i) is listed only when `degenerate` is set.
+pub fn ranges(n: u32, degenerate: bool) -> Vec<(bool, u32, bool, bool, u32, bool)> {
+    let mut v = Vec::new();
+    for i in 0..n {
+        for j in i..n {
+            for (si, ei) in [(true, true), (true, false), (false, true), (false, false)] {
+                if i == j && !(si && ei) && !(degenerate && si && !ei) {
+                    continue;
+                }
+                v.push((false, i, si, false, j, ei));
+            }
+        }
+    }
+    for j in 0..n {
+        for ei in [true, false] {
+            v.push((true, 0, true, false, j, ei));
+        }
+    }
+    for i in 0..n {
+        for si in [true, false] {
+            v.push((false, i, si, true, 0, true));
+        }
+    }
+    v.push((true, 0, true, true, 0, true));
+    v
+}
+
+/// what the emitted update says about the weak element: (id of the weak type element, start id, end id, flags)
+/// -- decoded by the independent codec, not by yrs
+fn weak_of_update(v1: &[Vec<u8>]) -> Option<(Id, Id, Id, u8)> {
+    for u in v1 {
+        if let Ok(wu) = codec::decode_update_v1(u) {
+            for b in &wu.blocks {
+                if let Content::Type(ti) = &b.content {
+                    if let Some((flags, s, e)) = &ti.weak {
+                        let start_unb = flags & 0b1000 != 0;
+                        let end_unb = flags & 0b1_0000 != 0;
+                        let lo = match s {
+                            Scope::Id(id) if !start_unb => *id,
+                            _ => (0, 0),
+                        };
+                        let hi = match e {
+                            Scope::Id(id) if !end_unb => *id,
+                            Scope::Same if !end_unb => lo,
+                            _ => (0, 0),
+                        };
+                        return Some((b.id, lo, hi, *flags));
+                    }
+                }
+            }
+        }
+    }
     None
 }
 
-pub fn after_step(_w: &mut World, _st: &Value, _ev: &mut Value) {}
+/// the update of a step that did nothing (its slot may still be delivered)
+fn empty_update() -> (Vec<u8>, Vec<u8>) {
+    use yrs::updates::encoder::Encode;
+    let u = yrs::Update::new();
+    (u.encode_v1(), u.encode_v2())
+}
 
-pub fn random_step(_w: &mut World, _authors: &[u64], _all: &[u64]) -> Option<Value> {
-    None
+/// finishes a local-op step of this extension: drains the update events, assigns the update slot, builds the event
+fn finish_local(w: &mut World, ri: usize, r: u64, call: Value, cont: &str, outcome: (String, String), extra: Value) -> (Value, Vec<Vec<u8>>) {
+    let (v1, v2) = w.drain(ri);
+    let (upd, problems) = w.emitted(&v1, &v2);
+    let (e1, e2) = empty_update();
+    let m1 = v1.first().cloned().unwrap_or(e1);
+    let m2 = v2.first().cloned().unwrap_or(e2);
+    w.log.push((r, m1, m2));
+    let mut ev = json!({
+        "k": "qloc", "r": r, "call": call, "cont": cont, "outcome": outcome.0, "why": outcome.1,
+        "upd": upd, "nev": [v1.len(), v2.len()], "wire": problems.join("; "),
+        "obs": w.observe(ri), "hasfol": w.followers, "fol": w.fol_obs(ri),
+    });
+    if let (Some(o), Some(x)) = (ev.as_object_mut(), extra.as_object()) {
+        for (k, v) in x {
+            o.insert(k.clone(), v.clone());
+        }
+    }
+    (ev, v1)
+}
+
+/// outcome "ok" | "skip" (the step is not applicable in the current state) | "error" | "panic", and the reason
+fn outcome_of(res: std::thread::Result<Result<(), String>>) -> (String, String) {
+    match res {
+        Ok(Ok(())) => ("ok".to_string(), String::new()),
+        Ok(Err(e)) => ((if e.starts_with("quote error") { "error" } else { "skip" }).to_string(), e),
+        Err(p) => ("panic".to_string(), panic_msg(&p)),
+    }
+}
+
+// -------------------------------------------------------------------------------------------------
+// steps
+
+fn do_quote(w: &mut World, qs: &mut QState, st: &Value) -> Value {
+    let r = st["r"].as_u64().unwrap();
+    let ri = w.rep(r);
+    let mut path: Vec<String> = st["p"].as_array().map(|v| v.iter().map(|x| x.as_str().unwrap().to_string()).collect()).unwrap_or_default();
+    if let Some(psel) = st["psel"].as_u64() {
+        // the generator does not know which sequences exist: take the psel-th non-empty one of this replica
+        let conts: Vec<_> = seq_containers(w, ri).into_iter().filter(|c| c.3 > 0).collect();
+        if !conts.is_empty() {
+            path = conts[(psel % conts.len() as u64) as usize].0.clone();
+        }
+    }
+    if path.is_empty() {
+        path = vec!["t".to_string()];
+    }
+    let key = st["key"].as_str().unwrap_or("q").to_string();
+    let h = st["h"].as_str().unwrap_or(&key).to_string();
+    let degenerate = st["deg"].as_bool().unwrap_or(false);
+    let doc = w.reps[ri].doc.clone();
+    // (su, i, si, eu, j, ei, n, kind, src)
+    let mut resolved: (bool, u32, bool, bool, u32, bool, u32, char, String) = (false, 0, true, false, 0, true, 0, '?', String::new());
+    let res = catch_unwind(AssertUnwindSafe(|| -> Result<(), String> {
+        let mut txn = doc.transact_mut();
+        let target = nav(w, &txn, &path)?;
+        let (kind, n) = match &target {
+            Out::YText(t) => ('t', t.get_string(&txn).chars().count() as u32),
+            Out::YArray(a) => ('a', a.len(&txn)),
+            _ => return Err("source is not a sequence".into()),
+        };
+        resolved.6 = n;
+        resolved.7 = kind;
+        resolved.8 = World::cont_of(&target, &path, "");
+        if n == 0 {
+            return Err("source has no visible unit".into());
+        }
+        let (su, i, si, eu, j, ei) = match st["sel"].as_u64() {
+            Some(sel) => {
+                let all = ranges(n, degenerate);
+                all[(sel % all.len() as u64) as usize]
+            }
+            None => (
+                st["su"].as_bool().unwrap_or(false),
+                st["i"].as_u64().unwrap_or(0) as u32,
+                st["si"].as_bool().unwrap_or(true),
+                st["eu"].as_bool().unwrap_or(false),
+                st["j"].as_u64().unwrap_or(0) as u32,
+                st["ei"].as_bool().unwrap_or(true),
+            ),
+        };
+        resolved.0 = su;
+        resolved.1 = i;
+        resolved.2 = si;
+        resolved.3 = eu;
+        resolved.4 = j;
+        resolved.5 = ei;
+        if (!su && i >= n) || (!eu && j >= n) {
+            return Err("range outside the source".into());
+        }
+        let (oi, oj) = match &target {
+            Out::YText(t) => (w.unit_offset(&txn, t, i), w.unit_offset(&txn, t, j)),
+            _ => (i, j),
+        };
+        let range: (Bound<u32>, Bound<u32>) = (
+            if su { Bound::Unbounded } else if si { Bound::Included(oi) } else { Bound::Excluded(oi) },
+            if eu { Bound::Unbounded } else if ei { Bound::Included(oj) } else { Bound::Excluded(oj) },
+        );
+        let m = txn.get_map("m").ok_or("no map root")?;
+        match &target {
+            Out::YText(t) => {
+                let prelim = t.quote(&txn, range).map_err(|e| format!("quote error: {}", e))?;
+                m.insert(&mut txn, key.clone(), prelim);
+            }
+            Out::YArray(a) => {
+                let prelim = a.quote(&txn, range).map_err(|e| format!("quote error: {}", e))?;
+                m.insert(&mut txn, key.clone(), prelim);
+            }
+            _ => unreachable!(),
+        }
+        Ok(())
+    }));
+    // (a refused quotation of a range that lies inside the source is an error, not a skipped step)
+    let outcome = outcome_of(res);
+    let (su, i, si, eu, j, ei, n, kind, src) = resolved;
+    let call = json!({"a": "quote", "r": r, "p": path, "key": key, "h": h, "su": su, "i": i, "si": si, "eu": eu, "j": j, "ei": ei, "n": n,
+        "sel": st["sel"].as_i64().unwrap_or(-1)});
+    let cont = obs::cont_key_root("m", &key);
+    let (mut ev, v1) = finish_local(w, ri, r, call, &cont, outcome.clone(), json!({"h": h, "src": src, "kind": kind.to_string()}));
+    let wk = weak_of_update(&v1);
+    let (wid, lo, hi, flags) = wk.unwrap_or(((0, 0), (0, 0), (0, 0), 0));
+    let o = ev.as_object_mut().unwrap();
+    o.insert("wid".into(), obs::idv(wid));
+    o.insert("wlo".into(), obs::idv(lo));
+    o.insert("whi".into(), obs::idv(hi));
+    o.insert("wsa".into(), json!(flags & 0b10 != 0));
+    o.insert("wea".into(), json!(flags & 0b100 != 0));
+    o.insert("wsu".into(), json!(flags & 0b1000 != 0));
+    o.insert("weu".into(), json!(flags & 0b1_0000 != 0));
+    if outcome.0 == "ok" && wk.is_some() {
+        qs.handles.insert(h, Handle { kind, key, src, lo, hi });
+    }
+    ev
+}
+
+fn do_link(w: &mut World, qs: &mut QState, st: &Value) -> Value {
+    let r = st["r"].as_u64().unwrap();
+    let ri = w.rep(r);
+    let key = st["key"].as_str().unwrap_or("k1").to_string();
+    let at = st["at"].as_str().unwrap_or("l1").to_string();
+    let h = st["h"].as_str().unwrap_or(&at).to_string();
+    let doc = w.reps[ri].doc.clone();
+    let res = catch_unwind(AssertUnwindSafe(|| -> Result<(), String> {
+        let mut txn = doc.transact_mut();
+        let m = txn.get_map("m").ok_or("no map root")?;
+        let prelim = m.link(&txn, &key).ok_or("no such entry")?;
+        m.insert(&mut txn, at.clone(), prelim);
+        Ok(())
+    }));
+    let outcome = outcome_of(res);
+    let src = obs::cont_key_root("m", &key);
+    let call = json!({"a": "link", "r": r, "key": key, "at": at, "h": h});
+    let cont = obs::cont_key_root("m", &at);
+    let (mut ev, v1) = finish_local(w, ri, r, call, &cont, outcome.clone(), json!({"h": h, "src": src, "kind": "l"}));
+    let wk = weak_of_update(&v1);
+    let (wid, lo, hi, flags) = wk.unwrap_or(((0, 0), (0, 0), (0, 0), 0));
+    let o = ev.as_object_mut().unwrap();
+    o.insert("wid".into(), obs::idv(wid));
+    o.insert("wlo".into(), obs::idv(lo));
+    o.insert("whi".into(), obs::idv(hi));
+    o.insert("wsa".into(), json!(flags & 0b10 != 0));
+    o.insert("wea".into(), json!(flags & 0b100 != 0));
+    o.insert("wsu".into(), json!(flags & 0b1000 != 0));
+    o.insert("weu".into(), json!(flags & 0b1_0000 != 0));
+    if outcome.0 == "ok" && wk.is_some() {
+        qs.handles.insert(h, Handle { kind: 'l', key: at, src, lo, hi });
+    }
+    ev
+}
+
+fn do_qdel(w: &mut World, qs: &mut QState, st: &Value) -> Value {
+    let r = st["r"].as_u64().unwrap();
+    let ri = w.rep(r);
+    let h = st["h"].as_str().unwrap_or("").to_string();
+    let hd = qs.handles.get(&h).cloned();
+    let doc = w.reps[ri].doc.clone();
+    let key = hd.as_ref().map(|x| x.key.clone()).unwrap_or_default();
+    let res = catch_unwind(AssertUnwindSafe(|| -> Result<(), String> {
+        if hd.is_none() {
+            return Err("unknown handle".into());
+        }
+        let mut txn = doc.transact_mut();
+        let m = txn.get_map("m").ok_or("no map root")?;
+        match m.get(&txn, &key) {
+            Some(Out::YWeakLink(_)) => {
+                m.remove(&mut txn, &key);
+                Ok(())
+            }
+            _ => Err("quotation not on this replica".into()),
+        }
+    }));
+    let outcome = outcome_of(res);
+    let call = json!({"a": "qdel", "r": r, "h": h});
+    let cont = obs::cont_key_root("m", &key);
+    let src = hd.as_ref().map(|x| x.src.clone()).unwrap_or_default();
+    let kind = hd.as_ref().map(|x| x.kind.to_string()).unwrap_or_default();
+    let (mut ev, _) = finish_local(w, ri, r, call, &cont, outcome, json!({"h": h, "src": src, "kind": kind}));
+    let o = ev.as_object_mut().unwrap();
+    for k in ["wid", "wlo", "whi"] {
+        o.insert(k.into(), obs::idv((0, 0)));
+    }
+    for k in ["wsa", "wea", "wsu", "weu"] {
+        o.insert(k.into(), json!(false));
+    }
+    ev
+}
+
+/// path by which replica `ri` reaches the sequence container `src` now
+fn path_of(w: &World, ri: usize, src: &str) -> Option<(Vec<String>, u32)> {
+    seq_containers(w, ri).into_iter().find(|c| c.2 == src).map(|c| (c.0, c.3))
+}
+
+fn ids_of(v: &Value) -> Vec<Id> {
+    v.as_array().map(|a| a.iter().map(|x| (x[0].as_u64().unwrap_or(0), x[1].as_u64().unwrap_or(0) as u32)).collect()).unwrap_or_default()
+}
+
+/// resolves a boundary-relative edit into an ordinary step; None when it cannot be placed on this replica now
+fn resolve_edit(w: &World, qs: &QState, st: &Value) -> Result<Value, String> {
+    let r = st["r"].as_u64().unwrap();
+    let ri = w.rep(r);
+    let h = st["h"].as_str().unwrap_or("");
+    let hd = qs.handles.get(h).ok_or("unknown handle")?;
+    let op = st["op"].as_str().unwrap_or("ins");
+    let at = st["at"].as_str().unwrap_or("mid");
+    let n = st["n"].as_u64().unwrap_or(1);
+    if hd.kind == 'l' {
+        let key = hd.src.trim_start_matches("m|").to_string();
+        return Ok(match op {
+            "rem" | "del" => {
+                let has = {
+                    let txn = w.reps[ri].doc.transact();
+                    txn.get_map("m").map(|m| m.contains_key(&txn, &key)).unwrap_or(false)
+                };
+                if !has {
+                    return Err("entry absent".into());
+                }
+                json!({"a": "rem", "r": r, "p": ["m"], "key": key, "via": h})
+            }
+            _ => json!({"a": "set", "r": r, "p": ["m"], "key": key, "k": "u", "via": h}),
+        });
+    }
+    let (path, nvis) = path_of(w, ri, &hd.src).ok_or("source not reachable")?;
+    let o = w.observe(ri);
+    let lst = ids_of(&o["lst"][&hd.src]);
+    let dead = ids_of(&o["dead"]);
+    let is_dead = |x: &Id| dead.contains(x);
+    // visible index of the place of x: number of visible units strictly left of x; and whether x itself is visible
+    let place = |x: Id, unb: u32| -> Result<(u32, bool), String> {
+        if x == (0, 0) {
+            return Ok((unb, false));
+        }
+        let p = lst.iter().position(|y| *y == x).ok_or("boundary not on this replica")?;
+        Ok((lst[..p].iter().filter(|y| !is_dead(y)).count() as u32, !is_dead(&x)))
+    };
+    let (plo, vlo) = place(hd.lo, 0)?;
+    let (phi, vhi) = place(hd.hi, nvis)?;
+    let idx = match (op, at) {
+        ("ins", "lo-") => plo,
+        ("ins", "lo+") | ("ins", "lo") => plo + vlo as u32,
+        ("ins", "hi-") | ("ins", "hi") => phi,
+        ("ins", "hi+") => phi + vhi as u32,
+        ("ins", "out-") => 0,
+        ("ins", "out+") => nvis,
+        ("ins", _) => (plo + phi + 1) / 2,
+        (_, "lo-") => plo.checked_sub(1).ok_or("nothing left of the start")?,
+        (_, "lo") => plo,
+        (_, "lo+") => plo + vlo as u32,
+        (_, "hi-") => phi.checked_sub(1).ok_or("nothing left of the end")?,
+        (_, "hi") => phi,
+        (_, "hi+") => phi + vhi as u32,
+        (_, "out-") => 0,
+        (_, "out+") => nvis.checked_sub(1).ok_or("empty")?,
+        (_, _) => (plo + phi) / 2,
+    };
+    let p: Vec<Value> = path.iter().map(|s| json!(s)).collect();
+    if op == "ins" {
+        if idx > nvis {
+            return Err("position beyond the end".into());
+        }
+        Ok(json!({"a": "ins", "r": r, "p": p, "i": idx, "n": n, "k": "u", "via": h}))
+    } else {
+        if idx >= nvis {
+            return Err("nothing to delete there".into());
+        }
+        let n = n.min((nvis - idx) as u64);
+        Ok(json!({"a": "del", "r": r, "p": p, "i": idx, "n": n, "via": h}))
+    }
+}
+
+fn do_qedit(w: &mut World, qs: &mut QState, st: &Value) -> Value {
+    match resolve_edit(w, qs, st) {
+        Ok(step) => w.local(&step),
+        Err(why) => {
+            // the step keeps its update slot
+            let r = st["r"].as_u64().unwrap();
+            let (e1, e2) = empty_update();
+            w.log.push((r, e1, e2));
+            json!({"k": "qskip", "r": r, "call": st, "why": why, "slot": true})
+        }
+    }
+}
+
+enum Found {
+    Absent,
+    Weak(WeakRef<yrs::branch::BranchPtr>, Id),
+}
+
+fn find_weak<T: ReadTxn>(txn: &T, key: &str) -> Found {
+    match txn.get_map("m").and_then(|m| m.get(txn, key)) {
+        Some(Out::YWeakLink(wr)) => {
+            let id = branch_id(&Out::YWeakLink(wr.clone()));
+            Found::Weak(wr, id)
+        }
+        _ => Found::Absent,
+    }
+}
+
+fn deref_one(w: &World, ri: usize, hd: &Handle) -> Value {
+    let doc = w.reps[ri].doc.clone();
+    let res = catch_unwind(AssertUnwindSafe(|| -> Result<(bool, Id, Vec<Id>), String> {
+        let txn = doc.transact();
+        match find_weak(&txn, &hd.key) {
+            Found::Absent => Ok((false, (0, 0), vec![])),
+            Found::Weak(wr, wid) => {
+                let ids: Vec<Id> = match hd.kind {
+                    't' => {
+                        let t: WeakRef<TextRef> = WeakRef::from(wr);
+                        t.get_string(&txn).chars().map(|c| w.tags.of_char(c)).collect()
+                    }
+                    'a' => {
+                        let a: WeakRef<ArrayRef> = WeakRef::from(wr);
+                        a.unquote(&txn).map(|o| out_id(w, &o)).collect()
+                    }
+                    _ => {
+                        let m: WeakRef<MapRef> = WeakRef::from(wr);
+                        m.try_deref_value(&txn).map(|o| vec![out_id(w, &o)]).unwrap_or_default()
+                    }
+                };
+                Ok((true, wid, ids))
+            }
+        }
+    }));
+    match res {
+        Ok(Ok((present, wid, ids))) => json!({"present": present, "wid": obs::idv(wid), "ids": obs::idsv(&ids), "outcome": "ok"}),
+        Ok(Err(e)) => json!({"present": false, "wid": [0, 0], "ids": [], "outcome": format!("error: {}", e)}),
+        Err(p) => json!({"present": true, "wid": [0, 0], "ids": [], "outcome": format!("panic: {}", panic_msg(&p))}),
+    }
+}
+
+fn do_unquote(w: &mut World, qs: &mut QState, st: &Value) -> Value {
+    let only_r = st["r"].as_u64();
+    let only_h = st["h"].as_str().map(|s| s.to_string());
+    let mut res = Vec::new();
+    for ri in 0..w.reps.len() {
+        let r = w.reps[ri].id;
+        if only_r.map(|x| x != r).unwrap_or(false) {
+            continue;
+        }
+        for (h, hd) in qs.handles.iter() {
+            if only_h.as_ref().map(|x| x != h).unwrap_or(false) {
+                continue;
+            }
+            let mut v = deref_one(w, ri, hd);
+            let o = v.as_object_mut().unwrap();
+            o.insert("r".into(), json!(r));
+            o.insert("h".into(), json!(h));
+            o.insert("kind".into(), json!(hd.kind.to_string()));
+            // observer of this quotation on this replica: installed?, firings since the last event that listed it
+            match qs.subs.get(&(ri, h.clone())) {
+                Some((_, c)) => {
+                    o.insert("o".into(), json!(true));
+                    o.insert("fired".into(), json!(c.get()));
+                    c.set(0);
+                }
+                None => {
+                    o.insert("o".into(), json!(false));
+                    o.insert("fired".into(), json!(0));
+                }
+            }
+            res.push(v);
+        }
+    }
+    json!({"k": "unquote", "call": st, "res": res})
+}
+
+pub fn step(w: &mut World, st: &Value) -> Option<Value> {
+    let a = st["a"].as_str().unwrap_or("");
+    if !matches!(a, "quote" | "link" | "qdel" | "qedit" | "unquote") {
+        return None;
+    }
+    let mut qs = take(w);
+    let ev = match a {
+        "quote" => do_quote(w, &mut qs, st),
+        "link" => do_link(w, &mut qs, st),
+        "qdel" => do_qdel(w, &mut qs, st),
+        "qedit" => do_qedit(w, &mut qs, st),
+        _ => do_unquote(w, &mut qs, st),
+    };
+    put(w, qs);
+    Some(ev)
+}
+
+/// installs an observer on every stored quotation that is reachable on a replica and has none yet
+pub fn after_step(w: &mut World, _st: &Value, _ev: &mut Value) {
+    let mut qs = take(w);
+    let handles: Vec<(String, Handle)> = qs.handles.iter().map(|(h, x)| (h.clone(), x.clone())).collect();
+    for ri in 0..w.reps.len() {
+        for (h, hd) in &handles {
+            if qs.subs.contains_key(&(ri, h.clone())) {
+                continue;
+            }
+            let doc = w.reps[ri].doc.clone();
+            let cnt = Rc::new(Cell::new(0u32));
+            let c2 = cnt.clone();
+            let sub = catch_unwind(AssertUnwindSafe(|| {
+                let txn = doc.transact();
+                match find_weak(&txn, &hd.key) {
+                    Found::Weak(wr, _) => Some(wr.observe(move |_, _| c2.set(c2.get() + 1))),
+                    Found::Absent => None,
+                }
+            }));
+            if let Ok(Some(s)) = sub {
+                qs.subs.insert((ri, h.clone()), (s, cnt));
+            }
+        }
+    }
+    put(w, qs);
+}
+
+pub fn random_step(w: &mut World, authors: &[u64], all: &[u64]) -> Option<Value> {
+    let qs = take(w);
+    let nh = qs.handles.len();
+    let hs: Vec<(String, char)> = qs.handles.iter().map(|(h, x)| (h.clone(), x.kind)).collect();
+    put(w, qs);
+    let roll = w.rng.below(100);
+    let r = authors[w.rng.below(authors.len() as u64) as usize];
+    let ri = w.rep(r);
+    if nh == 0 || (nh < 3 && roll < 20) {
+        // create a quotation or a link
+        let conts: Vec<_> = seq_containers(w, ri).into_iter().filter(|c| c.3 > 0).collect();
+        let keys: Vec<String> = {
+            let txn = w.reps[ri].doc.transact();
+            let mut ks: Vec<String> = txn.get_map("m").map(|m| m.keys(&txn).map(|k| k.to_string()).filter(|k| k.starts_with('k')).collect()).unwrap_or_default();
+            ks.sort();
+            ks
+        };
+        if !keys.is_empty() && (conts.is_empty() || w.rng.chance(1, 4)) {
+            let key = keys[w.rng.below(keys.len() as u64) as usize].clone();
+            let h = format!("l{}", nh + 1);
+            return Some(json!({"a": "link", "r": r, "key": key, "at": h, "h": h}));
+        }
+        if conts.is_empty() {
+            return None;
+        }
+        let c = &conts[w.rng.below(conts.len() as u64) as usize];
+        let h = format!("q{}", nh + 1);
+        let p: Vec<Value> = c.0.iter().map(|s| json!(s)).collect();
+        return Some(json!({"a": "quote", "r": r, "p": p, "sel": w.rng.below(1000), "key": h, "h": h}));
+    }
+    if roll < 65 {
+        return Some(json!({"a": "unquote"}));
+    }
+    let (h, kind) = hs[w.rng.below(hs.len() as u64) as usize].clone();
+    let _ = all;
+    if roll < 96 {
+        let op = if kind == 'l' { if w.rng.chance(1, 3) { "rem" } else { "set" } } else if w.rng.chance(2, 5) { "del" } else { "ins" };
+        let ats = ["lo-", "lo", "lo+", "mid", "hi-", "hi", "hi+", "out-", "out+"];
+        let at = ats[w.rng.below(ats.len() as u64) as usize];
+        return Some(json!({"a": "qedit", "r": r, "h": h, "op": op, "at": at, "n": 1 + w.rng.below(2)}));
+    }
+    Some(json!({"a": "qdel", "r": r, "h": h}))
 }
